@@ -58,6 +58,7 @@ func checkC15(c *Ctx) {
 	c15Usable(c)
 	c15RangedCtors(c)
 	c15ConcurrentCtors(c)
+	c15GenericCtors(c)
 	s, d := catalogOf(c)
 	n := map[string]int{}
 	for _, r := range d.Rows {
